@@ -1,6 +1,6 @@
 (** C13 — a learned route's metric equals its hop count. *)
 From Coq Require Import List NArith.
-From MM Require Import Model.Flood Proofs.FloodBase Proofs.FloodMetric.
+From MM Require Import Model.Flood Proofs.FloodBase Proofs.FloodMetric Generated.C13.
 Import ListNotations.
 Local Open Scope N_scope.
 
@@ -64,3 +64,20 @@ Example C13_example_chain :
 Proof.
   split; [unfold ex_ops; repeat (apply Forall_cons; [vm_compute; auto|]); apply Forall_nil | vm_compute; reflexivity].
 Qed.
+
+(** Source facts regenerated on this run: the re-flooded copy of the routes
+    has every metric incremented by exactly the amount the receiver adds on
+    receipt (1, for all four tables); conversions in between keep the metric;
+    presence routes are announced with metric 0; agent.go configures exit,
+    domain and forward routes with metric 0; replays send the stored metric. *)
+Theorem C13_source_facts :
+  gen_forward_metric_increment = 1 /\ gen_flood_sends_given_routes = true /\
+  gen_store_increment_cidr = 1 /\ gen_store_increment_domain = 1 /\
+  gen_store_increment_forward = 1 /\ gen_store_increment_agent = 1 /\
+  (forall m, inc16 m = (m + gen_forward_metric_increment) mod two16) /\
+  gen_conversion_keeps_metric = true /\
+  gen_presence_metric = r_metric (presence 0) /\
+  Forall (fun m => m mod two16 = 0) gen_config_route_metrics /\
+  gen_replay_sends_stored_metric = true.
+Proof. repeat split; try reflexivity. repeat constructor. Qed.
+Print Assumptions C13_source_facts.
